@@ -1,1 +1,17 @@
-//! harness package hfdsync
+//! harness package hfdsync: C06 on compio-driver WITH feature `sync` (SharedFd = Arc based).
+//! The sources are shared with package hfd.
+#[path = "../../hfd/src/rec.rs"]
+pub mod rec;
+#[path = "../../hfd/src/replay.rs"]
+pub mod replay;
+#[path = "../../hfd/src/sched.rs"]
+pub mod sched;
+#[path = "../../hfd/src/util.rs"]
+pub mod util;
+
+#[allow(dead_code)]
+fn assert_send<T: Send + Sync>() {}
+#[allow(dead_code)]
+fn sync_build_proof() {
+    assert_send::<compio_driver::SharedFd<std::os::fd::OwnedFd>>();
+}
